@@ -90,7 +90,7 @@ fn alphabet(iface: &Iface) -> Vec<M> {
         msgs.push((Msg::of(vec![Unit::hdr("E"), f.clone(), Unit::hdr("B")]), Some(k.clone())));
     }
     // faulty messages that also carry a string or block with quote characters in it
-    for raw in [&b":Z #13a\"b"[..], &b"@ #11'"[..], &b":ZZ '\"',#12''"[..], &b":A:B! \"'\""[..]] {
+    for raw in [&b":Z #13a\"b"[..], &b"@ #11'"[..], &b":ZZ '\"',#12''"[..], &b":A:B! \"'\""[..], &b":Z #3003a'b"[..], &b"@ #201\""[..]] {
         msgs.push((Msg::of(vec![Unit::raw(raw)]), None));
     }
     msgs.into_iter()
